@@ -447,3 +447,6 @@ func Scratch(label string) string {
 	}
 	return d
 }
+
+// Char picks one byte of s.
+func (r *Rand) Char(s string) byte { return s[r.Intn(len(s))] }
